@@ -63,6 +63,9 @@ def main():
                 res["demo_without_patch_log"] = out[-1500:]
             rm_demo()
         rc, out = sh(["git", "apply", os.path.join(seed, "patch.diff")], wt)
+        if rc != 0:
+            # the working tree of /repo may carry uncommitted add-only hook lines near the patched site
+            rc, out = sh("patch -p1 --fuzz=3 --no-backup-if-mismatch < " + os.path.join(seed, "patch.diff"), wt)
         res["patch_applies"] = rc == 0
         if rc != 0:
             res["apply_log"] = out[-1000:]
@@ -74,7 +77,7 @@ def main():
             rc, out = sh("go test -vet=off -count=1 ./... 2>&1 | grep -E '^(FAIL|---|ok|panic)' | grep -v '^ok' | head -20", wt, 1500)
             fails = out.strip()
             import re as _re
-            pk = sorted(set(_re.findall(r"^FAIL\s+(\S+)", fails, _re.M)))
+            pk = sorted(set(_re.findall(r"^FAIL[ \t]+(\S+)", fails, _re.M)))
             still = []
             for pkg in pk:
                 okp = False
